@@ -867,7 +867,11 @@ impl<'a> Cx<'a> {
 			return;
 		}
 		self.failed = true;
-		let sig = if self.lie_seen { format!("{} [the source lied about a height or chainwork earlier in this run]", canon(sig)) } else { canon(sig) };
+		// Everything that goes wrong after the source misreported a header's height / chainwork has one
+		// root cause (those claims are not re-checked for headers found in the client's header cache or
+		// on the listeners' own chain): one signature; the manifestation goes into the detail.
+		let (sig, detail) = if self.lie_seen { ("listeners were notified inconsistently after the block source misreported the height or chainwork of a header".to_string(), format!("[{}] {}", canon(sig), detail)) } else { (canon(sig), detail) };
+		let rule = if self.lie_seen { "L7" } else { rule };
 		{
 			let mut m = self.cfg.per_sig.borrow_mut();
 			let c = m.entry(sig.clone()).or_insert(0);
